@@ -78,23 +78,24 @@ Vias(it) == IF it.t \in ArrTags THEN {"vec", "view"}       \* std::vector<T> / s
 
 -------------------------------------------------------------------------------
 EmptyState == [items |-> <<>>, bytes |-> 0, calc |-> 0, phase |-> "writing", limit |-> 0, cursor |-> 0, idx |-> 0]
-InitLast   == [a |-> "Init", arg |-> <<>>, cls |-> "", ok |-> TRUE, exp |-> [total |-> 0]]
+InitLast   == [a |-> "Init", arg |-> <<>>, cls |-> "", ok |-> TRUE, exp |-> [len |-> 0, total |-> 0, predicted |-> 0]]
 
 Rem(st)   == st.limit - st.cursor
 AtEnd(st) == st.cursor = st.limit                          \* what end() must return
+RdObs(st) == [cursor |-> st.cursor, end |-> AtEnd(st)]     \* the observable state of the reader
 
 \* ---- writing: the item goes to a BufferWriter and to a WriteSizeCalculator
 WriteStep(st, it) ==
   LET n == EncLen(it) IN
   [s    |-> [st EXCEPT !.items = Append(@, it), !.bytes = @ + n, !.calc = @ + n],
    last |-> [a |-> "Write", arg |-> [item |-> it], cls |-> it.t, ok |-> TRUE,
-             exp |-> [len |-> n, total |-> st.bytes + n, calc |-> st.calc + n]]]
+             exp |-> [len |-> n, total |-> st.bytes + n, predicted |-> st.calc + n]]]
 
 \* ---- a BufferReader over the first k bytes of what was written
 OpenStep(st, k) ==
   [s    |-> [st EXCEPT !.phase = "reading", !.limit = k, !.cursor = 0, !.idx = 0],
    last |-> [a |-> "Open", arg |-> [k |-> k], cls |-> IF k = st.bytes THEN "full" ELSE "truncated", ok |-> TRUE,
-             exp |-> [size |-> k, cur |-> 0, end |-> (k = 0)]]]
+             exp |-> [st |-> [size |-> k, cursor |-> 0, end |-> (k = 0)]]]]
 
 \* what a reader has to know to read an item: its type, the way to read it and - for raw
 \* blocks, which carry no framing - the number of bytes
@@ -113,11 +114,11 @@ ReadStep(st, via) ==
      THEN LET st2 == [st EXCEPT !.cursor = @ + n, !.idx = @ + 1] IN
           [s |-> st2,
            last |-> [a |-> "Read", arg |-> ReadArg(it, via), cls |-> cl \o ",fits", ok |-> TRUE,
-                     exp |-> [ret |-> it.v, cur |-> st2.cursor, end |-> AtEnd(st2)]]]
+                     exp |-> [ret |-> it.v, st |-> RdObs(st2)]]]
      ELSE IF Atomic(it, via)
      THEN [s |-> st,
            last |-> [a |-> "Read", arg |-> ReadArg(it, via), cls |-> cl \o ",past-end", ok |-> FALSE,
-                     exp |-> [ret |-> "throws", cur |-> st.cursor, end |-> AtEnd(st)]]]
+                     exp |-> [ret |-> "throws", st |-> RdObs(st)]]]
      ELSE [s |-> [st EXCEPT !.phase = "broken"],
            last |-> [a |-> "Read", arg |-> ReadArg(it, via), cls |-> cl \o ",past-end", ok |-> FALSE,
                      exp |-> [ret |-> "throws"]]]
@@ -126,7 +127,7 @@ ReadStep(st, via) ==
 ProbeStep(st, t) ==
   [s |-> st,
    last |-> [a |-> "Probe", arg |-> [t |-> t], cls |-> t \o ",past-end", ok |-> FALSE,
-             exp |-> [ret |-> "throws", cur |-> st.cursor, end |-> AtEnd(st)]]]
+             exp |-> [ret |-> "throws", st |-> RdObs(st)]]]
 ProbeEnabled(st, t) == st.phase \in {"reading", "drained"} /\ PodSize(t) > Rem(st)
 
 \* ---- getView<uint8_t>(n); n < 0 stands for the size_t value 2^64 + n
@@ -142,10 +143,10 @@ ViewStep(st, n) ==
   THEN LET st2 == IF n = 0 THEN st ELSE [st EXCEPT !.cursor = st.limit, !.phase = "drained"] IN
        [s |-> st2,
         last |-> [a |-> "View", arg |-> [n |-> n], cls |-> ViewCls(st, n), ok |-> TRUE,
-                  exp |-> [ret |-> n, cur |-> st2.cursor, end |-> AtEnd(st2)]]]
+                  exp |-> [ret |-> n, st |-> RdObs(st2)]]]
   ELSE [s |-> st,
         last |-> [a |-> "View", arg |-> [n |-> n], cls |-> ViewCls(st, n), ok |-> FALSE,
-                  exp |-> [ret |-> "throws", cur |-> st.cursor, end |-> AtEnd(st)]]]
+                  exp |-> [ret |-> "throws", st |-> RdObs(st)]]]
 
 -------------------------------------------------------------------------------
 \* the state machine
@@ -178,7 +179,6 @@ CursorIsOffset == s.phase = "reading" => s.cursor = Total(Prefix(s.items, s.idx)
 EndExactly    == (s.phase = "reading" /\ s.limit = s.bytes) =>
                     /\ (s.idx = Len(s.items) => AtEnd(s))
                     /\ (AtEnd(s) => Total(SubSeq(s.items, s.idx + 1, Len(s.items))) = 0)
-LastAgrees    == /\ "end" \in DOMAIN last.exp => last.exp.end = AtEnd(s)
-                 /\ "cur" \in DOMAIN last.exp => last.exp.cur = s.cursor
-                 /\ "total" \in DOMAIN last.exp => last.exp.total = s.bytes
+LastAgrees    == /\ "st" \in DOMAIN last.exp => last.exp.st.end = AtEnd(s) /\ last.exp.st.cursor = s.cursor
+                 /\ "total" \in DOMAIN last.exp => last.exp.total = s.bytes /\ last.exp.predicted = s.calc
 ===============================================================================
